@@ -46,7 +46,9 @@ func registerRead(ctx *Context, forward Forward, reg RegisterType, sequenceID in
 		return v
 	}
 
-	if v, exists := ctx.Transaction[reg]; exists {
+	// Same rule as with the rename table: if a sequence ID is provided, a value
+	// written by an instruction following the current one isn't visible
+	if v, exists := ctx.Transaction[reg]; exists && (sequenceID == 0 || v.sequenceID <= sequenceID) {
 		return v.value
 	}
 	return ctx.Registers[reg]
